@@ -38,7 +38,7 @@ pub broadcast proof fn lemma_avp_eq(a: AvpV, b: AvpV)
 { }
 
 pub broadcast group group_spec_seq {
-    lemma_skip_skip, lemma_skip_zero, lemma_skip_all, lemma_take_all, lemma_concat_skip, lemma_concat_take, lemma_concat_empty,
+    lemma_skip_zero, lemma_skip_all, lemma_take_all, lemma_concat_skip, lemma_concat_take, lemma_concat_empty,
     lemma_avp_eq,
     crate::vf_prelude::group_be,
     crate::vf_prelude::axiom_chars_bytes_utf8,
